@@ -96,7 +96,7 @@ def join_tokens(table, toks, n):
 
 def c07_tokens3(toks: Tuple[int, int, int], n: int) -> bool:
     """
-    pre: pinned(n=n, t0=toks[0], t1=toks[1])
+    pre: pinned(n=n, t0=toks[0], t1=toks[1], g1=toks[1] % 4)
     pre: 0 <= n <= 3
     pre: enc.word_ranges(toks, n, NTOK3)
     post: _
@@ -153,7 +153,7 @@ def _sh_tok3(tier):
     nt = len(TOK_T if tier == "thorough" else TOK_Q)
     if tier == "quick":
         return product_pins(n=[3], t0=list(range(nt))) + [{"n": 2}, {"n": 1}, {"n": 0}]
-    return product_pins(n=[3], t0=list(range(nt)), t1=list(range(0, nt, 1)))[::1] + [{"n": 2}, {"n": 1}, {"n": 0}]
+    return product_pins(n=[3], t0=list(range(nt)), g1=[0, 1, 2, 3]) + [{"n": 2}, {"n": 1}, {"n": 0}]
 
 
 def _sh_wide(tier):
